@@ -723,7 +723,7 @@ int main(int argc, char ** argv)
 	std::string line;
 	while(std::getline(std::cin, line)) {
 		if(! parseScript(line, script)) continue;
-		armWatchdog(20);
+		armWatchdog(60);
 		if(faultMode) {
 			// the last operation of the script is attempted with the k-th fault point armed, k = 1, 2, ... until it runs untouched
 			for(long k = 1; k < 64; ++k) {
